@@ -74,6 +74,9 @@ PROPS["C12"] = {
         # fitted problem, and that problem's cached residuals have the same form Y_w − W·Φ·c with its cached coefficients
         ("R-STATS-ARGS", rs2.rule_stats_args, {}),
         ("R-RESID-TERM", rp.rule_resid_term, {}),
+        # "if the fit failed … returns the fit result as Err": fit_with_statistics may rely on `self.fit(problem)?`, whose own
+        # Ok ⇔ successful mapping is this rule
+        ("R-FIT-MAP", _fit_map, {}),
     ],
     "explanation": "Guard-before-subtraction and decision-table rules on FitStatistics' constructor and fit_with_statistics: the "
                    "degrees-of-freedom role is N-(M+P) of the model counts, every overflow-checked subtraction of these operands is "
@@ -131,6 +134,8 @@ PROPS["C02"] = {
     "rules": [
         ("R-CLONE-IDENTITY", rp2.rule_clone_identity, {"group": ('problem',)}),
         ("R-RESID-TERM", rp.rule_resid_term, {}),
+        # "for the α currently in effect", over every sequence of updates: each update replaces the cache on every path
+        ("R-NO-HISTORY", rp2.rule_no_history, {}),
         ("R-PURE-PROJECTION", rp.rule_pure_projection, {}),
         ("R-VEC-COLMAJOR", rp.rule_vec_colmajor, {}),
         ("R-BESTFIT", rp.rule_bestfit, {}),
@@ -204,6 +209,10 @@ PROPS["C07"] = {
     "rules": [
         ("R-NO-CONST-PARAM-USE", rp2.rule_no_const_param_use, {}),
         ("R-OBS-RESHAPE", rp2.rule_obs_reshape, {}),
+        # every column of a weighted multi-column problem is the single-column problem: the data are W·Y with the row
+        # scaling applied to EVERY column (a flat zip of the matrix with the N weights would stop after column 0)
+        ("R-DATA-WEIGHT-ONCE", rp2.rule_data_weight_once, {}),
+        ("R-ROW-SCALING", rp2.rule_row_scaling, {}),
         ("R-VEC-COLMAJOR", rp.rule_vec_colmajor, {}),
         ("R-KAUFMAN-COL", rp2.rule_kaufman_col, {}),
         ("R-RESID-TERM", rp.rule_resid_term, {}),
